@@ -16,17 +16,20 @@
 //!   rec <owner> <class> <ttl> <rtype> <rdata> (x2)    Record::canonical_cmp
 //!   svcb <prio> <target wire> <params> (x2)           SvcbRdata::canonical_cmp
 //!   unkeq|unkccmp <rtype> <data> <rtype> <data>       ZoneRecordData::Unknown ==, canonical_cmp
+//!   ipsec <prec> <alg> <gateway wire> <key> (x2)      Ipseckey::canonical_cmp, name gateway
+//!   alleq <rtype> <data> <rtype> <data>, alleqopt <opts> <opts>   AllRecordData ==
+//!   ipsechash <prec> <alg>                            hashing an IPSECKEY without gateway: Ok|Panic
 //! Results: `Ok <v>` or `Panic`.
 use bytes::Bytes;
 use domain::base::cmp::CanonicalOrd;
 use domain::base::iana::{Class, Rtype};
 use domain::base::message_builder::{StaticCompressor, TreeCompressor};
-use domain::base::name::{Label, Name, ParsedName, RelativeName, ToName, ToRelativeName};
+use domain::base::name::{Label, Name, OwnedLabel, ParsedName, RelativeName, ToName, ToRelativeName};
 use domain::base::rdata::{ComposeRecordData, ParseRecordData, UnknownRecordData};
 use domain::base::record::RecordHeader;
 use domain::base::{CharStr, Message, MessageBuilder, Record, Ttl};
 use domain::rdata::dnssec::{Nsec, RtypeBitmap};
-use domain::rdata::ZoneRecordData;
+use domain::rdata::{AllRecordData, ZoneRecordData};
 use dv_harness::*;
 use octseq::Parser;
 use std::cmp::Ordering;
@@ -218,6 +221,12 @@ fn label_cases(out: &mut Out, r: &mut Rng, n: u64) {
         let mut wa = vec![a.len() as u8]; wa.extend_from_slice(&lcs(&a));
         let mut wb = vec![b.len() as u8]; wb.extend_from_slice(&lcs(&b));
         chk(out, la.lowercase_composed_cmp(lb) == wa.cmp(&wb), "label_lc_composed_bytewise", &pair, "");
+        // OwnedLabel is the same label in another representation
+        {
+            let (oa, ob) = (OwnedLabel::from_label(la), OwnedLabel::from_label(lb));
+            chk(out, (oa == ob) == eq && oa.cmp(&ob) == cm && feed(&oa) == ha && oa.as_label() == la && oa.to_canonical().as_label().as_slice() == &lcs(&a)[..],
+                "repr_independent_owned_label", &pair, "");
+        }
         // triples
         let t = format!("{} {}", pair, hex(&c3));
         if la == lb && lb == l3 { chk(out, la == l3, "label_eq_trans", &t, ""); }
@@ -276,6 +285,14 @@ fn name_cases(out: &mut Out, r: &mut Rng, n: u64) {
         {
             let mut ca = Vec::new(); fa.compose_canonical(&mut ca).unwrap();
             chk(out, ca == canon_wire(&a), "compose_canonical_lowercases", &pair, &hex(&ca));
+        }
+        // other octets types holding the same name
+        {
+            let sa: Name<&[u8]> = Name::from_octets(&wa[..]).unwrap();
+            let ba: Name<Bytes> = Name::from_octets(Bytes::from(wa.clone())).unwrap();
+            let o1 = ops(&sa, &fb); let o2 = ops(&ba, &fb);
+            chk(out, ops_s(&o1) == ops_s(&base) && ops_s(&o2) == ops_s(&base) && feed(&sa) == ha && feed(&ba) == ha && sa == fa && ba == sa,
+                "repr_independent_octets_type", &pair, "");
         }
         // triples
         let t = format!("{} {}", pair, hex(&wire_abs(&c3)));
@@ -553,6 +570,20 @@ fn rdata_cases(out: &mut Out, r: &mut Rng, n: u64) {
         let (x, y) = match (parse_rd(rt, &wx), parse_rd(rt, &wy)) { (Some(x), Some(y)) => (x, y), _ => { out.count("rdata_unparseable"); continue; } };
         out.oracle_case(&c, wx != wy, &format!("rdata_{}", tname));
         rdata_pair(out, tname, rt, &x, &y, &c);
+        // the same octets through AllRecordData's dispatch
+        if i % 4 == 0 {
+            let (bx, by) = (Bytes::copy_from_slice(&wx), Bytes::copy_from_slice(&wy));
+            let (x2, y2) = (x.clone(), y.clone());
+            let r = catch(move || {
+                let (mut p1, mut p2) = (Parser::from_ref(&bx), Parser::from_ref(&by));
+                type AD = AllRecordData<Bytes, ParsedName<Bytes>>;
+                match (AD::parse_rdata(Rtype::from_int(rt), &mut p1), AD::parse_rdata(Rtype::from_int(rt), &mut p2)) {
+                    (Ok(Some(a)), Ok(Some(b))) => Some(a.canonical_cmp(&b) == x2.canonical_cmp(&y2) && (rt >= 65280 || (a == b) == (x2 == y2)) && canon_rd(&a) == canon_rd(&x2)),
+                    _ => None,
+                }
+            });
+            match r { Ok(Some(same)) => chk(out, same, &format!("all_record_data_dispatch_{}", tname), &c, ""), Ok(None) => out.count("all_record_data_unparseable"), Err(e) => chk(out, false, &format!("rdata_panic_{}", tname), &c, &e) }
+        }
         // same data after a trip through a compressed message
         if i % 2 == 0 {
             let owner = flat(&vec![b"o".to_vec(), b"example".to_vec()]);
@@ -735,6 +766,54 @@ fn svcb_cases(out: &mut Out, r: &mut Rng, n: u64) {
         let c = format!("svcb {} {} {} {} {} {}", p1, hex(&wire_abs(&t1)), hex(&q1), p2, hex(&wire_abs(&t2)), hex(&q2));
         out.begin(&c);
         out.case(&c, &format!("Ok {}", ord(x.canonical_cmp(&y))), t1 != t2 || p1 != p2 || q1 != q2, "svcb");
+    }
+    // IPSECKEY with a name gateway; hashing a value without gateway
+    for i in 0..n {
+        let g1 = gen_name(r);
+        let g2 = if r.chance(1, 4) { g1.clone() } else { near_name(r, &g1) };
+        let (p1, a1) = (*r.pick(&[0u8, 1, 10, 255]), r.range(1, 2) as u8);
+        let (p2, a2) = (if r.chance(3, 4) { p1 } else { p1.wrapping_add(1) }, if r.chance(3, 4) { a1 } else { 3 - a1 });
+        let k1 = gen_small(r, 1, 3);
+        let k2 = if r.chance(1, 2) { k1.clone() } else { near_octets(r, &k1, 1, 6) };
+        let w = |p: u8, a: u8, g: &Labels, k: &Vec<u8>| { let mut v = vec![p, 3, a]; v.extend_from_slice(&wire_abs(g)); v.extend_from_slice(k); v };
+        let (x, y) = match (parse_rd(45, &w(p1, a1, &g1, &k1)), parse_rd(45, &w(p2, a2, &g2, &k2))) { (Some(x), Some(y)) => (x, y), _ => continue };
+        let c = format!("ipsec {} {} {} {} {} {} {} {}", p1, a1, hex(&wire_abs(&g1)), hex(&k1), p2, a2, hex(&wire_abs(&g2)), hex(&k2));
+        out.begin(&c);
+        let obs = show(catch(move || x.canonical_cmp(&y)), |o| ord(*o).to_string());
+        out.case(&c, &obs, g1 != g2 || k1 != k2 || p1 != p2 || a1 != a2, "ipsec");
+        if i % 20 == 0 {
+            let z = parse_rd(45, &[p1, 0, a1, 7]).unwrap();
+            let obs = match catch(move || feed(&z)) { Ok(_) => "Ok", Err(_) => "Panic" };
+            out.case(&format!("ipsechash {} {}", p1, a1), obs, true, "ipsechash");
+        }
+    }
+    // AllRecordData: == on the Unknown and Opt variants (reflexivity)
+    type AD = AllRecordData<Bytes, ParsedName<Bytes>>;
+    let parse_ad = |rt: u16, w: &[u8]| -> Option<AD> {
+        let b = Bytes::copy_from_slice(w);
+        catch(move || { let mut p = Parser::from_ref(&b); AD::parse_rdata(Rtype::from_int(rt), &mut p).ok().flatten() }).ok().flatten()
+    };
+    for _ in 0..n / 4 {
+        let d1 = gen_small(r, 0, 3);
+        let d2 = if r.chance(2, 3) { d1.clone() } else { near_octets(r, &d1, 0, 8) };
+        let r1 = 65280 + r.below(3) as u16;
+        let r2 = if r.chance(2, 3) { r1 } else { 65280 + r.below(3) as u16 };
+        if let (Some(x), Some(y)) = (parse_ad(r1, &d1), parse_ad(r2, &d2)) {
+            let c = format!("alleq {} {} {} {}", r1, hex(&d1), r2, hex(&d2));
+            out.begin(&c);
+            out.case(&c, &format!("{}", x == y), true, "alleq");
+            chk(out, x == x.clone() && y == y.clone(), "all_record_data_eq_not_reflexive", &c, "AllRecordData::Unknown value is not equal to itself");
+            chk(out, (x.cmp(&y) == Ordering::Equal) == (x == y), "all_record_data_eq_not_reflexive", &c, "cmp and == disagree");
+        }
+        // OPT: a sequence of options (code, length, data)
+        let o1: Vec<u8> = if r.chance(1, 3) { vec![] } else { let v = gen_small(r, 0, 3); let mut w = vec![0, 10, 0, v.len() as u8]; w.extend_from_slice(&v); w };
+        let o2 = if r.chance(2, 3) { o1.clone() } else { vec![0, 10, 0, 1, gen_octet(r)] };
+        if let (Some(x), Some(y)) = (parse_ad(41, &o1), parse_ad(41, &o2)) {
+            let c = format!("alleqopt {} {}", hex(&o1), hex(&o2));
+            out.begin(&c);
+            out.case(&c, &format!("{}", x == y), true, "alleqopt");
+            chk(out, x == x.clone() && y == y.clone(), "all_record_data_eq_not_reflexive", &c, "AllRecordData::Opt value is not equal to itself");
+        }
     }
     for _ in 0..n / 2 {
         let d1 = gen_small(r, 0, 3);
